@@ -107,7 +107,7 @@ def rule_taint(facts, rep):
         for n, pieces, args in writes:
             for a in args:
                 a = hir.simp(a)
-                nm = a.get("name") if a.get("k") == "local" else None
+                nm = a.get("name").split("~")[0] if a.get("k") == "local" else None     # `~N`: a local of an inlined helper
                 if nm == "fragment":
                     text_writes += 1
                     if kind == "fg":
